@@ -161,7 +161,6 @@ def same_composition(a, b):
 # ------------------------------------------------------------------------------------------------------------------
 def mutants(pool_full, pool_alpha, pool_small, rng):
     """single-character insertions / deletions / substitutions"""
-    seen = set()
     allbytes = [bytes([c]) for c in range(1, 256)]
     alpha = [c.encode() for c in fm.ALPHABET]
     small = [c.encode() for c in 'aeZH09.() ,#+-eE\t\n'] + [b'\xe9', b'\xff', b'\x01', b'\x7f']
@@ -177,6 +176,7 @@ def mutants(pool_full, pool_alpha, pool_small, rng):
                 yield s[:i] + s[i + 1:]
     for pool, chars, extra in ((pool_full, allbytes, 0), (pool_alpha, alpha, 2), (pool_small, small, 2)):
         for s in pool:
+            seen = set()                       # per source formula (a global set costs ~1 GB in the thorough tier)
             for m in emit(s, chars, extra):
                 if m not in seen:
                     seen.add(m)
